@@ -38,11 +38,22 @@ def scan(text):
     counted, directives = set(), set()
     in_char = None
     cont = False
+    branch = []  # lexical state at the opening directive of each open conditional
     for n, line in enumerate(text.split("\n"), 1):
         s = line
-        if not (cont and in_char) and s.lstrip().startswith("#"):
+        if s.startswith("#") or (not (cont and in_char) and s.lstrip().startswith("#")):
+            # the preprocessor runs first: a `#` in column one is a directive even between the parts of a
+            # continued literal, and every branch continues from the state at the opening directive
             counted.add(n)
             directives.add(n)
+            m = re.match(r"\s*#\s*([a-z]*)", s)
+            d = m.group(1) if m else ""
+            if d in ("if", "ifdef", "ifndef"):
+                branch.append((in_char, cont))
+            elif d in ("else", "elif") and branch:
+                in_char, cont = branch[-1]
+            elif d == "endif" and branch:
+                branch.pop()
             continue
         has_text = False
         i = 0
@@ -94,6 +105,7 @@ def scan(text):
 # ---------------------------------------------------------------- generator
 
 LITS = ["'plain'", '"dq"', "'it''s'", '"a!b"', "'c & d'", '"x // y"', "'say \"hi\"'", '"e&"', "'!'", '""', "'&'",
+        "'\\'", '"\\"', "'C:\\dir\\'", '"a\\b"',  # a backslash is an ordinary character
         "'x &! y'", '"fast &   ! furious"', "'a&!'", '"& !"', "'!&'", '"a ! b & c ! d"', "'&&'", "'! $omp'"]
 COMMENTS = ["! comment", "!comment & more", "! it's \"quoted\"", "!! double", "!   ", "! & ampersand &"]
 SENTINELS = ["!$omp parallel", "!$omp end parallel", "!$acc kernels", "!$acc end kernels", "!$ x = 2", "!dir$ ivdep", "!dec$ novector", "!$OMP BARRIER"]
@@ -158,8 +170,23 @@ def case_strategy():
     def block(draw, depth, counter):
         out = []
         for _ in range(draw(st.integers(1, 4))):
-            k = draw(st.sampled_from(["stmt", "stmt", "stmt", "comment", "blank", "sentinel", "cond" if depth > 0 else "stmt", "define", "condstmt"]))
-            if k == "condstmt":
+            k = draw(st.sampled_from(["stmt", "stmt", "stmt", "comment", "blank", "sentinel", "cond" if depth > 0 else "stmt", "define", "condstmt", "condlit"]))
+            if k == "condlit":
+                # a character literal continued across a conditional, one continuation line per branch
+                counter[0] += 1
+                n = draw(st.sampled_from(["A", "B", "C"]))
+                q = draw(st.sampled_from(["'", '"']))
+                ind = draw(st.sampled_from(["", "  "]))
+                out.append((f"{ind}s = {q}built " + draw(st.sampled_from(["with", "w! th", "it's" if q == '"' else 'say "x"'])) + " &", "code"))
+                out.append((draw(st.sampled_from([f"#ifdef {n}", f"#ifndef {n}", f"#if defined({n})"])), "directive"))
+                out.append((f"{ind}   &" + draw(st.sampled_from(["this", "a ! b", "x // y"])) + q + draw(trailing), "code"))
+                if draw(st.booleans()):
+                    out.append((ind + draw(st.sampled_from(COMMENTS)), "comment"))
+                out.append(("#else", "directive"))
+                out.append((f"{ind}   &" + draw(st.sampled_from(["that", "no ! c", "& d"])) + q + draw(trailing), "code"))
+                out.append(("#endif", "directive"))
+                out.append((ind + draw(st.sampled_from(COMMENTS)), "comment"))
+            elif k == "condstmt":
                 # the optional-argument idiom: conditional directives between the lines of one continued statement
                 counter[0] += 1
                 n = draw(st.sampled_from(["A", "B", "C"]))
